@@ -20,6 +20,7 @@ package rux
 import (
 	"net/http"
 	"sync"
+	"time"
 )
 
 // a handler that panics (contained by the OnPanic hook of shapes that have one)
@@ -110,7 +111,10 @@ func verifC03Router(sh verifC03Shape) *Router {
 		rt.Use(pass)
 	}
 	r.GET("/s2", body("s2"))
-	r.GET("/d/{id}", body("d"), mws...)
+	rtd := r.GET("/d/{id}", body("d"), mws...)
+	for i := sh.routeMws; i < 0; i++ {
+		rtd.Use(pass) // (spare capacity in the dynamic route's slice too)
+	}
 	r.GET("/{v}", body("v"))
 	r.Add("/m", body("m"), "TRACE", "PUT", "DELETE", "GET")
 	r.GET("/x/{id}", body("x"))
@@ -190,5 +194,31 @@ func verifHarness_C03_pairs() {
 		wg.Wait()
 	}
 	verifAssert(!bad, "every concurrently served request answers exactly as it does alone")
+	// many requests in flight for a while: every one of them is answered (a watchdog tells a hang)
+	finished := make(chan struct{})
+	go func() {
+		var wg sync.WaitGroup
+		for g := 0; g < 8; g++ {
+			g := g
+			wg.Add(1)
+			go func() {
+				defer wg.Done()
+				for n := 0; n < 1500; n++ {
+					q := pair[(g+n)%2]
+					if n%7 == 3 {
+						q.path += "x" // other paths too: misses that store, evictions
+					}
+					verifC03Serve(r, q)
+				}
+			}()
+		}
+		wg.Wait()
+		close(finished)
+	}()
+	select {
+	case <-finished:
+	case <-time.After(25 * time.Second):
+		verifAssert(false, "every concurrently served request is answered: none blocks forever")
+	}
 	_ = http.StatusOK
 }
